@@ -600,8 +600,8 @@ fn rand_oracle(c: &RandCase, info: &mut Case) -> Result<(), String> {
 }
 
 pub fn run(ctx: &Ctx) {
-    let n_mut = ctx.tier.pick(8_000, 300_000);
-    let n_rand = ctx.tier.pick(4_000, 100_000);
+    let n_mut = ctx.tier.pick(48_000, 300_000);
+    let n_rand = ctx.tier.pick(16_000, 100_000);
     if ctx.is_worker || ctx.replay.is_some() {
         ctx.explore("mutants", n_mut, 1, mut_strategy, mut_oracle);
         ctx.explore("random", n_rand, 1, rand_strategy, rand_oracle);
